@@ -13,7 +13,7 @@ Streams `paths` / `embedding` (no program is solved by toqito there; `Problem.so
 around the programs -- guards, the `return 1` and CP shortcuts, the inferred subsystem dimension, `dual_channel`, the solver arguments -- is
 compared with the Lean mirror `Toq.Model.ChanMetricsPath` (`cbPath`, `cpShortcutAsCoded`, `dualChoiE`, `cfPath`; theorems `cbPath_*`, `cfPath_*`,
 `cbSpectral_model`) on exact dyadic inputs whose predicate verdicts are certified exactly (PSD factor / negative witness); the programs the code
-builds are evaluated at exact points of the modelled programs (certified by the verified checkers) and at negative controls: constraint matrices
+builds (also the one of the channel fidelity_of_separability: streams fos-program / fos-guards, mirror `Toq.Model.ChanMetricsFos`, theorems `fos_*`) are evaluated at exact points of the modelled programs (certified by the verified checkers) and at negative controls: constraint matrices
 must equal the model's `cbDualBlock` / `cfPrimalBlock` / `cfLoewnerSlack` entrywise, the picos objective must be `||Tr_Y Y0|| + ||Tr_Y Y1||` of the
 model's partial traces.  A captured problem with other variables / constraint kinds than the modelled one raises `CorrespondenceBroken`; so does a call
 that leaves the modelled path (guard, shortcut, solver arguments) while the value it returns is still inside the certified optimum -- a value outside
@@ -47,7 +47,12 @@ RULE = ("qubit and qutrit maps given by Choi matrices built from exact data by t
         "their affine combinations, the transpose map, random dyadic Hermitian matrices with smallest eigenvalue <= -0.05; non-square arrays), call forms completely_bounded_trace_norm(J) / (J, 'cvxopt') / "
         "(J, solver='cvxopt', abs_prim_fsb_tol=1e-9), diamond_distance(J1, J2) (also J1 = J2), completely_bounded_spectral_norm(J); channel_fidelity on full-rank mixtures with eps in {default, 1e-5, 1e-6}, "
         "shapes d^2 x d^2 for d = 2..7 and mismatching / non-square shapes; a paths case is non-trivial when the model's verdicts are decided (never 'undecided'), an embedding case when the verified checker "
-        "accepted the point (certified feasible) or the point is a negative control")
+        "accepted the point (certified feasible) or the point is a negative control; "
+        "streams fos-program/fos-guards: pure product states b (x) a (x) r of exactly rational unit vectors with complex amplitudes (pool: Gaussian integer vectors, entries |re|,|im| <= 3 (d=2) / 2 (d=3), squared norm a "
+        "perfect square, at least two non-zero entries), psi_dims in {[2,2,2],[2,2,3],[2,3,2],[3,2,2]} (thorough also [3,3,2],[2,3,3]), levels k = 1, 2 (thorough 3), four call forms (k positional / keyword, solver_option and "
+        "verbosity_option given or not); points: the feasible point of fos_feasible_product, a random Hermitian point with entries in Z[i]/4, controls trace-doubled / not-psd / not-symmetric (k >= 2) / not-ppt (k = 1, dR <= dA); "
+        "guards: trace 3/4, 2 psi - psi', a non-Hermitian perturbation, two and four dimensions, the maximally mixed state, a 9/25 : 16/25 mixture, and combinations with a wrong number of dimensions; every case non-trivial "
+        "(a guards case when the model's verdicts are decided)")
 ASSUMPTIONS = [
     "toqito computes with the float Choi matrices it is given; the instance certified is their exact dyadic image (J1 - J2 is the float difference, exact image taken after the subtraction)",
     "tolerance 2e-5 on picos/CVXOPT-solved values (completely_bounded_trace_norm and callers); 1e-3 on channel_fidelity: SCS is called with eps=1e-7 but stops at its iteration limit "
@@ -66,7 +71,16 @@ ASSUMPTIONS = [
     "correspondence (CorrespondenceBroken: rejected malformed shapes, a shortcut taken or not taken with the right value, solver arguments not reaching Problem.solve); a constraint matrix / objective of a captured program that "
     "differs from the model's at an exact point, an accepted negative control and a rejected certified point are failing inputs (the point)",
     "the CP shortcut is mirrored AS CODED (it returns tr J; cpShortcutAsCoded_toC), so the paths stream agrees with the code there while the certified-interval stream reports the known finding c20-cb-cp-shortcut-trace-norm",
-    "the channel fidelity of separability of product states is tested only (value 1 within 1e-4 on generated product states); its k-extension program is not modelled",
+    "channel fidelity of separability: the optimum of the program the function builds is proved to be exactly 1 for every pure product state, every level k >= 1 and all local dimensions "
+    "(fos_feasible_product, fos_obj_product, fos_obj_le_one, fos_optimum_product, fos_product_eq_one) for the index-tuple form of the program; the executable mirror "
+    "Toq.Model.ChanMetricsFos.exprs (flattened indices: mirrors of permute_systems / symmetric_projection, specifications of picos' partial trace / partial transpose) is identified with that form (transcribed to flattened indices: Toq.Model.ChanMetricsFos.tupleExprs, exact equality of every expression, evaluated by the driver) and with the "
+    "picos problem the code builds by the stream fos-program only (every captured expression equals the mirror's entrywise to 1e-12 relative at the exact feasible point, at random exact Hermitian points and at "
+    "negative controls; the mirror's residuals at the feasible point are exactly 0 and its objective exactly 1); the solved-value stream (value 1 within 1e-4) additionally trusts CVXOPT",
+    "fos-program: states are products of exactly rational unit vectors (Gaussian integer vectors whose squared norm is a perfect square), so the state, the feasible point 1 (x) (a a^H)^(x)k and the psd certificate of the "
+    "density guard are exact; the recording solver reports the proved optimum 1 and the function must return 1 (with the value 0.8125 it must return 0.625 = the mirrored return line, correspondence only); "
+    "a captured constraint at the float image of the exact feasible point may be off by 1e-9, the captured objective there by 1e-12; a negative control must violate a captured constraint by 1e-3",
+    "fos-guards: which guard fires is compared with the model's cascade on exact verdicts (fosPath_program_iff, fosPath_errors, fos_verdicts_sound); a different rejection of a rejected input is a broken correspondence "
+    "(rejections are outside the property's quantifier), a rejected pure product state with three dimensions is a failing input; psi_dims whose product is not the size of psi is not generated (permute_systems rejects it)",
     "channel fidelity: the program certified is Katariya-Wilde Prop. 50 with the Loewner order on the Hermitian part of Tr_Y Q; a primal certificate (lower bound) needs J1, J2 > 0, "
     "so lower bounds are certified only for full-rank Choi matrices; rank-deficient pairs get the upper bound only",
     "dX != dY maps are certified by the Lean checkers only (the toqito functions take no dimension argument and assume dX = dY)",
@@ -1408,6 +1422,424 @@ def work_cf_path(task, res: Result):
         res.violation(f"channel_fidelity: for {r1}x{r1} Choi matrices the program the code builds has constraints of shapes {shapes}; the model infers the local dimension {m['dim']}", info)
 
 
+
+# ------------------------------------------------------------------------------------------------
+# streams `fos-program` and `fos-guards`: the program channel `fidelity_of_separability` BUILDS (captured at Problem.solve, never solved)
+# against the Lean mirror `Toq.Model.ChanMetricsFos` (ops c20_fos_program / c20_fos_path / c20_fos_return), at the exact feasible point of
+# theorem `fos_feasible_product` (objective exactly 1: `fos_obj_product`), at random exact Hermitian points and at negative controls
+
+FOS_FEAS = 1e-9     # a captured constraint at (the float image of) the exact feasible point
+FOS_OBJ = 1e-12     # the captured objective there against 1
+FOS_STUB = 0.8125   # the value the recording "solver" reports in the return-line check (2 v - 1 = 0.625)
+
+
+class CQ:
+    """exact complex rational matrix (numpy object arrays of Fractions)"""
+
+    def __init__(self, re, im):
+        self.re, self.im = re, im
+
+    @staticmethod
+    def zeros(n, m=None):
+        m = n if m is None else m
+        re = np.empty((n, m), dtype=object)
+        re[...] = Fraction(0)
+        return CQ(re, re.copy())
+
+    @staticmethod
+    def eye(n):
+        out = CQ.zeros(n)
+        for i in range(n):
+            out.re[i, i] = Fraction(1)
+        return out
+
+    @staticmethod
+    def col(v, den=1):
+        """column vector from Gaussian integers [(re, im), ...] divided by den"""
+        out = CQ.zeros(len(v), 1)
+        for i, (a, b) in enumerate(v):
+            out.re[i, 0], out.im[i, 0] = Fraction(int(a), den), Fraction(int(b), den)
+        return out
+
+    @staticmethod
+    def from_gi(Z, den):
+        """complex array with Gaussian integer entries, divided by den"""
+        Z = np.asarray(Z)
+        out = CQ.zeros(*Z.shape)
+        for i in range(Z.shape[0]):
+            for j in range(Z.shape[1]):
+                out.re[i, j], out.im[i, j] = Fraction(int(round(Z[i, j].real)), den), Fraction(int(round(Z[i, j].imag)), den)
+        return out
+
+    def __matmul__(self, o):
+        return CQ(self.re.dot(o.re) - self.im.dot(o.im), self.re.dot(o.im) + self.im.dot(o.re))
+
+    def __add__(self, o):
+        return CQ(self.re + o.re, self.im + o.im)
+
+    def __sub__(self, o):
+        return CQ(self.re - o.re, self.im - o.im)
+
+    def H(self):
+        return CQ(self.re.T.copy(), -self.im.T.copy())
+
+    def kron(self, o):
+        return CQ(np.kron(self.re, o.re) - np.kron(self.im, o.im), np.kron(self.re, o.im) + np.kron(self.im, o.re))
+
+    def scale(self, q):
+        q = Fraction(q)
+        return CQ(self.re * q, self.im * q)
+
+    def to_float(self):
+        return np.array(self.re, dtype=float) + 1j * np.array(self.im, dtype=float)
+
+    def json(self):
+        from math import lcm
+        fr, fi = [Fraction(x) for x in self.re.reshape(-1)], [Fraction(x) for x in self.im.reshape(-1)]
+        den = 1
+        for x in fr + fi:
+            den = lcm(den, x.denominator)
+        return {"den": den, "re": [int(x * den) for x in fr], "im": [int(x * den) for x in fi]}
+
+
+_UNIT_POOL = {}
+
+
+def unit_pool(d):
+    """all exactly rational unit vectors v/s of dimension d: Gaussian integer entries with |re|, |im| <= 2 (<= 3 for d = 2), squared norm a perfect
+    square s^2, at least two non-zero entries, not all real and not all imaginary (complex amplitudes), first non-zero entry not normalised (phases matter)"""
+    if d not in _UNIT_POOL:
+        import itertools
+        lim = 3 if d == 2 else 2
+        ent = [(a, b) for a in range(-lim, lim + 1) for b in range(-lim, lim + 1)]
+        out = []
+        for v in itertools.product(ent, repeat=d):
+            n2 = sum(a * a + b * b for a, b in v)
+            s = int(round(n2 ** 0.5))
+            if n2 == 0 or s * s != n2 or sum(1 for a, b in v if (a, b) != (0, 0)) < 2:
+                continue
+            if all(b == 0 for a, b in v) or all(a == 0 for a, b in v):
+                continue
+            out.append(([list(z) for z in v], s))
+        _UNIT_POOL[d] = out
+    return _UNIT_POOL[d]
+
+
+def draw_unit(rng, d):
+    pool = unit_pool(d)
+    return pool[int(rng.integers(len(pool)))]
+
+
+def _fos_capture(fn, stub):
+    """run fn() with picos.Problem.solve replaced (this process only) by a recorder that keeps the problem and reports the optimum `stub`
+    without solving.  Returns (outcome, captures); outcome = ('value', v) | ('raise', type name, text)"""
+    import picos
+    got = []
+    orig = picos.Problem.solve
+
+    class _Sol:
+        value = stub
+
+    def fake(self, *a, **kw):
+        got.append((self, a, dict(kw)))
+        return _Sol()
+
+    picos.Problem.solve = fake
+    try:
+        try:
+            out = ("value", fn())
+        except Exception as e:  # noqa: BLE001
+            out = ("raise", type(e).__name__, str(e)[:200])
+    finally:
+        picos.Problem.solve = orig
+    return out, got
+
+
+def _np2(x):
+    return np.atleast_2d(np.array(x.np, dtype=complex))
+
+
+def _fos_read(P, k, dR, NC):
+    """the captured problem in the modelled shape: (variable S, [trace eq, psd, sym eq, ppt_1..ppt_k]); anything else breaks the correspondence"""
+    names = sorted(P.variables.keys())
+    if names != ["S"] or tuple(P.variables["S"].shape) != (NC, NC) or type(P.variables["S"]).__name__ != "HermitianVariable":
+        raise CorrespondenceBroken(f"channel fidelity_of_separability: the captured picos problem has variables {[(n_, type(P.variables[n_]).__name__, tuple(P.variables[n_].shape)) for n_ in names]}, "
+                                   f"the modelled program has one Hermitian variable S of shape {(NC, NC)}")
+    cons = list(P.constraints.values())
+    kinds = ["psd" if hasattr(c, "psd") else ("eq" if type(c).__name__.endswith("AffineConstraint") else type(c).__name__) for c in cons]
+    want = ["eq", "psd", "eq"] + ["psd"] * k
+    if kinds != want:
+        raise CorrespondenceBroken(f"channel fidelity_of_separability (k={k}): captured constraints {kinds}, the modelled program has {want} "
+                                   "(trace, choi >= 0, support on the symmetric subspace, one partial transpose per level)")
+    shapes = [tuple(c.psd.shape) if hasattr(c, "psd") else tuple(c.lhs.shape) for c in cons]
+    wshapes = [(dR, dR), (NC, NC), (NC, NC)] + [(NC, NC)] * k
+    if shapes != wshapes:
+        raise CorrespondenceBroken(f"channel fidelity_of_separability (k={k}): captured constraint shapes {shapes}, the modelled program has {wshapes}")
+    return P.variables["S"], cons
+
+
+def _fos_eval(S, cons, P, X):
+    """values of the captured expressions at the float point X"""
+    S.value = X
+    tr = _np2(cons[0].lhs - cons[0].rhs)
+    sy = _np2(cons[2].lhs - cons[2].rhs)
+    psd = [_np2(cons[1].psd)] + [_np2(c.psd) for c in cons[3:]]
+    obj = complex(P.objective.function.value)
+    return tr, sy, psd, obj
+
+
+def _fos_violation(tr, sy, psd):
+    """largest constraint violation of a captured point"""
+    v = max(float(np.max(np.abs(tr))), float(np.max(np.abs(sy))))
+    for a in psd:
+        v = max(v, -_min_eig_h(a), float(np.max(np.abs(a - a.conj().T))))
+    return v
+
+
+def _fos_state(task):
+    """exact product state b (x) a (x) r on B A R, its vector, and the exact projector a a^H"""
+    (vb, sb), (va, sa), (vr, sr) = task["vecs"]
+    b, a, r = CQ.col(vb, sb), CQ.col(va, sa), CQ.col(vr, sr)
+    w = b.kron(a).kron(r)
+    return w, w @ w.H(), a @ a.H()
+
+
+def _fos_call_args(task, rho_f, prng):
+    dims, k = list(task["dims"]), task["k"]
+    form = task.get("form", 0)
+    arr = present_nd(prng, rho_f.copy())
+    if form == 0:
+        return (arr, dims, k), {}
+    if form == 1:
+        return (arr, dims), {"k": k, "solver_option": "cvxopt"}
+    if form == 2:
+        return (arr, dims, k, 0, "cvxopt"), {}
+    return (arr, dims), {"k": k, "verbosity_option": 0}
+
+
+def work_fos_program(task, res: Result):
+    from toqito.channel_metrics import fidelity_of_separability
+    warnings.filterwarnings("ignore")
+    drv = worker_driver()
+    dB, dA, dR = task["dims"]
+    k = task["k"]
+    rng = np.random.default_rng(task["seed"])
+    desc = {"fn": "fos-program", "dims": list(task["dims"]), "k": k, "vecs": task["vecs"], "other": task.get("other"), "seed": task["seed"], "form": task.get("form", 0), "id": task.get("id", 0), "pres": task.get("pres")}
+    thm = "fos_feasible_product / fos_obj_product / fos_obj_le_one / fos_optimum_product (the program they speak about: Toq.Model.ChanMetricsFos.exprs)"
+    w, rho, Pa = _fos_state(task)
+    rho_f = rho.to_float()
+    NP, NC = dB * dA * dR, dR * dA ** k
+    # --- guards: the model's cascade on exact verdicts (psd factor = the state vector itself)
+    mp_ = drv.ask("c20_fos_path", {"n": NP, "dims": list(task["dims"]), "rho": rho.json(), "L": w.json(), "k": 1})
+    if mp_.get("path") != "program" or (mp_["dR"], mp_["dA"], mp_["dB"]) != (dR, dA, dB):
+        res.case(desc, True, "fos-program/model-path")
+        res.violation(f"model: the guard cascade does not accept an exact pure product state ({mp_}) (harness/model error; theorem fos_accepts_pure)", {"function": "fidelity_of_separability", "args": desc, "model": mp_, "check": "fos-model-path"})
+        return
+    prng = call_rng(task.get("pres"), "fos-program")
+    a, kw = _fos_call_args(task, rho_f, prng)
+    guard = Pure(*[x for x in a if isinstance(x, np.ndarray)])
+    out, got = _fos_capture(lambda: fidelity_of_separability(*a, **kw), 1.0)
+    why = guard.modified()
+    if why is not None:
+        res.violation(f"fidelity_of_separability: caller's arguments were modified ({why})", {"function": "fidelity_of_separability", "args": desc, "modified": why, "check": "purity"})
+    res.case(desc, True, f"fos-program/{dB}x{dA}x{dR}/k{k}/form{task.get('form', 0)}")
+    if out[0] == "raise":
+        res.violation(f"channel fidelity_of_separability raises {out[1]}: {out[2]} on a pure product state (the modelled guards accept it)",
+                      {"function": "fidelity_of_separability", "args": desc, "exception": out[2], "model": mp_, "check": "fos-guards", "theorem": "fosPath_program_iff / fos_accepts_pure"})
+        return
+    if len(got) != 1:
+        raise CorrespondenceBroken(f"channel fidelity_of_separability: the modelled code hands exactly one picos problem to the solver, captured {len(got)}")
+    P, pa, pk = got[0]
+    if pk.get("solver", pa[0] if pa else None) != "cvxopt" or len(pa) > 1 or set(pk) - {"solver"}:
+        raise CorrespondenceBroken(f"channel fidelity_of_separability: Problem.solve is called with {pa} {pk}, the modelled code calls solve(solver='cvxopt')")
+    if P.options["verbosity"] != 0:
+        raise CorrespondenceBroken(f"channel fidelity_of_separability: the problem is built with verbosity={P.options['verbosity']}, the call asked for 0")
+    S, cons = _fos_read(P, k, dR, NC)
+    res.count("fos-program/problems-captured")
+    if P.objective.direction != "max":
+        res.violation(f"channel fidelity_of_separability hands a '{P.objective.direction}' problem to the solver, the modelled program maximises",
+                      {"function": "fidelity_of_separability", "args": desc, "impl": P.objective.direction, "model": "max", "check": "fos-direction", "theorem": thm})
+        return
+    # the return line with the proved optimum 1 reported by the recording solver (fos_optimum_product): the function must return 2*1 - 1 = 1
+    if abs(complex(out[1]) - 1) > FOS_OBJ:
+        res.violation(f"channel fidelity_of_separability returns {out[1]!r} for a pure product state when the solver reports the optimum 1 of the program (proved: fos_optimum_product)",
+                      {"function": "fidelity_of_separability", "args": desc, "impl": complex(out[1]), "model": 1.0, "check": "fos-return", "theorem": "fos_optimum_product / fos_return_one"})
+        return
+    if task.get("id", 0) % 2 == 0:
+        a2, kw2 = _fos_call_args(task, rho_f, call_rng(task.get("pres"), "fos-program-stub"))
+        out2, _ = _fos_capture(lambda: fidelity_of_separability(*a2, **kw2), FOS_STUB)
+        mr = drv.ask("c20_fos_return", {"v": frac_json(Fraction(FOS_STUB))})
+        wantr = float(Fraction(*mr["value"]))
+        if out2[0] != "value" or abs(complex(out2[1]) - wantr) > 1e-15:
+            raise CorrespondenceBroken(f"channel fidelity_of_separability: with the solver value {FOS_STUB} the call gives {out2[:2]}, the modelled return line 2*value - 1 gives {wantr}")
+    # --- the points
+    G0 = CQ.eye(dR)
+    for _ in range(k):
+        G0 = G0.kron(Pa)
+    Z = rng.integers(-3, 4, size=(NC, NC)) + 1j * rng.integers(-3, 4, size=(NC, NC))
+    pts = [("feasible", G0, True), ("random-hermitian", CQ.from_gi(Z + Z.conj().T, 4), None), ("trace-doubled", G0.scale(2), False),
+           ("not-psd", G0 - CQ.eye(NC).scale(Fraction(1, 2)), False)]
+    if k >= 2:
+        (vc, sc) = task["other"]
+        c = CQ.col(vc, sc)
+        Gc = CQ.eye(dR).kron(Pa)
+        for _ in range(k - 1):
+            Gc = Gc.kron(c @ c.H())
+        pts.append(("not-symmetric", Gc, False))          # 1 (x) a a^H (x) c c^H: only the support constraint fails
+    if k == 1 and dR <= dA:
+        E = CQ.zeros(NC)
+        for r_ in range(dR):
+            for s_ in range(dR):
+                E.re[r_ * dA + r_, s_ * dA + s_] = Fraction(1)
+        pts.append(("not-ppt", E, False))                 # the Choi operator of the embedding R -> A': only the PPT constraint fails
+    for pname, G, feasible in pts:
+        d2 = dict(desc, point=pname)
+        m = drv.ask("c20_fos_program", {"dB": dB, "dA": dA, "dR": dR, "k": k, "psi": rho.json(), "choi": G.json()})
+        if "reject" in m:
+            raise RuntimeError(f"c20_fos_program rejected the request: {m}")
+        if m.get("forms_agree") is not True:
+            res.violation(f"model: the line-by-line mirror of the program and its index-tuple form (the form the theorems fos_* speak about) differ at the point '{pname}' (model error)",
+                          {"function": "fidelity_of_separability", "args": d2, "model": m.get("forms_agree"), "check": "fos-model-forms", "theorem": thm})
+            return
+        Mtr, Msy = _lean_mat(m["trace"], dR, dR), _lean_mat(m["sym"], NC, NC)
+        Mpsd = [G.to_float()] + [_lean_mat(x, NC, NC) for x in m["pts"]]
+        Mobj = _lean_z(m["obj"])
+        try:
+            tr, sy, psd, obj = _fos_eval(S, cons, P, G.to_float())
+        except Exception as e:  # noqa: BLE001
+            res.violation(f"channel fidelity_of_separability: a point of the modelled program cannot be written into the variable of the program the code builds ({type(e).__name__}: {str(e)[:150]})",
+                          {"function": "fidelity_of_separability", "args": d2, "check": "fos-variable", "theorem": thm})
+            return
+        vio = _fos_violation(tr, sy, psd)
+        mvio = _fos_violation(Mtr, Msy, Mpsd)
+        if feasible is True:
+            exact_zero = all(x == [0, 1] for x in m["trace"]["re"] + m["trace"]["im"] + m["sym"]["re"] + m["sym"]["im"])
+            if not exact_zero or m["obj"]["re"] != [1, 1] or m["obj"]["im"] != [0, 1] or mvio > FOS_FEAS:
+                res.violation("model: the mirror does not give zero residuals / objective 1 at the exact feasible point 1 (x) (a a^H)^(x)k (harness/model error; theorems fos_feasible_product, fos_obj_product)",
+                              {"function": "fidelity_of_separability", "args": d2, "model": {"obj": m["obj"], "violation": mvio}, "check": "fos-model-feasible"})
+                return
+            if vio > FOS_FEAS:
+                res.violation(f"channel fidelity_of_separability: the program the code builds rejects the feasible point 1 (x) (a a^H)^(x)k of the modelled program for a pure product state (constraint violation {vio:.3g})",
+                              {"function": "fidelity_of_separability", "args": d2, "impl": vio, "model": "feasible", "check": "fos-feasible", "theorem": "fos_feasible_product"})
+                return
+            if abs(obj - 1) > FOS_OBJ:
+                res.violation(f"channel fidelity_of_separability: the objective of the program the code builds is {obj.real:.12f} at the point 1 (x) (a a^H)^(x)k for a pure product state; the modelled objective is exactly 1 there",
+                              {"function": "fidelity_of_separability", "args": d2, "impl": obj, "model": 1.0, "check": "fos-objective", "theorem": "fos_obj_product"})
+                return
+        if feasible is False:
+            res.case(dict(d2, control=pname), True, f"fos-program/control/{pname}")
+            if mvio < EMB_BAD:
+                res.violation(f"model: the negative control '{pname}' does not violate the modelled program (harness error)", {"function": "fidelity_of_separability", "args": d2, "model": mvio, "check": "fos-model-control"})
+                return
+            if vio < EMB_BAD:
+                res.violation(f"channel fidelity_of_separability: the program the code builds accepts the infeasible point '{pname}' of the modelled program (largest constraint violation {vio:.3g}, modelled {mvio:.3g})",
+                              {"function": "fidelity_of_separability", "args": d2, "impl": vio, "model": mvio, "check": "fos-control", "theorem": thm})
+                return
+        # every expression of the captured problem equals the mirror's, entrywise
+        bad = None
+        if not _close(tr, Mtr):
+            bad = "partial_trace(choi, [1..k]) - I"
+        elif not (_close(sy, Msy) or _close(sy, -Msy)):
+            bad = "(I (x) sym) choi (I (x) sym) - choi"
+        elif any(not _close(x, y) for x, y in zip(psd, Mpsd)):
+            bad = "a semidefinite constraint matrix (choi / partial_transpose(choi, [1..i]))"
+        elif abs(obj - Mobj) > EMB_TOL * max(1.0, abs(Mobj)):
+            bad = f"the objective ({obj!r} vs the model's {Mobj!r})"
+        if bad is not None:
+            res.violation(f"channel fidelity_of_separability: {bad} of the program the code builds differs from the model's at the point '{pname}'",
+                          {"function": "fidelity_of_separability", "args": d2, "impl": {"obj": obj, "violation": vio}, "model": {"obj": Mobj, "violation": mvio}, "check": "fos-embedding", "theorem": thm})
+            return
+        res.count("fos-program/points-agree")
+
+
+def _overlap2(u, v):
+    """|<u, v>|^2 of two pool vectors (exact)"""
+    (a, sa), (b, sb) = u, v
+    re = sum(x[0] * y[0] + x[1] * y[1] for x, y in zip(a, b))
+    im = sum(x[0] * y[1] - x[1] * y[0] for x, y in zip(a, b))
+    return Fraction(re * re + im * im, sa * sa * sb * sb)
+
+
+def gen_fos_program_task(rng, i, dims, k):
+    vecs = [draw_unit(rng, d) for d in dims]
+    while True:
+        other = draw_unit(rng, dims[1])
+        if _overlap2(vecs[1], other) <= Fraction(1, 2):
+            break
+    return {"dims": list(dims), "k": k, "vecs": vecs, "other": other, "seed": int(rng.integers(1, 2 ** 31)), "form": int(rng.integers(4)), "id": i}
+
+
+FOS_MSG = {"not_density": ("ValueError", "Provided input state is not a density matrix."),
+           "not_tripartite": ("AssertionError", "For Channel SDP: require tripartite state dims."),
+           "not_pure": ("ValueError", "This function only works for pure states.")}
+
+
+def gen_fos_guard_task(rng, i):
+    kind = ["pure", "trace-off", "not-psd", "not-hermitian", "dims-2", "dims-4", "mixed-max", "mixed-two", "trace-off+dims", "mixed+dims", "pure"][i % 11]
+    dims = [[2, 2, 2], [3, 2, 2], [2, 3, 2], [2, 2, 3]][int(rng.integers(4))]
+    return {"kind": kind, "dims": dims, "vecs": [draw_unit(rng, d) for d in dims], "vecs2": [draw_unit(rng, d) for d in dims], "id": i}
+
+
+def work_fos_guards(task, res: Result):
+    """the three guards of the channel fidelity_of_separability against the model's cascade on exact verdicts"""
+    from toqito.channel_metrics import fidelity_of_separability
+    warnings.filterwarnings("ignore")
+    drv = worker_driver()
+    kind, dims = task["kind"], list(task["dims"])
+    n = int(np.prod(dims))
+    w, rho, _ = _fos_state(task)
+    w2, rho2, _ = _fos_state(dict(task, vecs=task["vecs2"]))
+    args = {"n": n}
+    call_dims = dims
+    if kind == "pure":
+        args.update(L=w.json(), k=1)
+    elif kind.startswith("trace-off"):
+        rho = rho.scale(Fraction(3, 4))
+    elif kind == "not-psd":
+        # 2 psi - psi2 restricted to trace 1; the witness is the component of w2 orthogonal to w (exact)
+        ov = (w.H() @ w2)
+        wit = w2 - w.scale(1) @ ov
+        rho = rho.scale(2) - rho2
+        args.update(v=wit.json())
+    elif kind == "not-hermitian":
+        rho = CQ(rho.re.copy(), rho.im.copy())
+        rho.im[0, n - 1] = rho.im[0, n - 1] + Fraction(1, 2)
+    elif kind in ("dims-2", "dims-4"):
+        args.update(L=w.json(), k=1)
+        call_dims = [dims[0], dims[1] * dims[2]] if kind == "dims-2" else [dims[0], dims[1], dims[2], 1]
+    elif kind.startswith("mixed-max"):
+        rho = CQ.eye(n).scale(Fraction(1, n))
+        args.update(L=CQ.zeros(n, 1).json(), k=1)
+    elif kind in ("mixed-two", "mixed+dims"):
+        Lm = CQ(np.concatenate([w.scale(Fraction(3, 5)).re, w2.scale(Fraction(4, 5)).re], axis=1), np.concatenate([w.scale(Fraction(3, 5)).im, w2.scale(Fraction(4, 5)).im], axis=1))
+        rho = Lm @ Lm.H()
+        args.update(L=Lm.json(), k=2)
+    if kind in ("trace-off+dims", "mixed+dims"):
+        call_dims = [dims[0] * dims[1], dims[2]]
+    args.update(rho=rho.json(), dims=call_dims)
+    m = drv.ask("c20_fos_path", args)
+    path = m["path"]
+    desc = {"fn": "fos-guards", "kind": kind, "dims": dims, "call_dims": call_dims, "vecs": task["vecs"], "vecs2": task["vecs2"], "id": task["id"], "pres": task.get("pres")}
+    res.case(desc, path != "undecided", f"fos-guards/{kind}/{path}")
+    if path == "undecided":
+        res.count("fos-guards/undecided")
+        return
+    arr = present_nd(call_rng(task.get("pres"), "fos-guards"), rho.to_float())
+    out, got = _fos_capture(lambda: fidelity_of_separability(arr, list(call_dims)), 1.0)
+    if path == "program":
+        if out[0] == "raise":
+            res.violation(f"channel fidelity_of_separability raises {out[1]}: {out[2]} on a pure product state with tripartite dimensions (the modelled guards accept it)",
+                          {"function": "fidelity_of_separability", "args": desc, "exception": out[2], "model": m, "check": "fos-guards", "theorem": "fosPath_program_iff / fos_accepts_pure"})
+        elif len(got) != 1:
+            raise CorrespondenceBroken(f"channel fidelity_of_separability: accepted input, but {len(got)} problems were handed to the solver")
+        return
+    et, msg = FOS_MSG[path]
+    if out[0] != "raise" or out[1] != et or msg not in out[2]:
+        raise CorrespondenceBroken(f"channel fidelity_of_separability ({kind}, dims {call_dims}): the modelled guards give {et}('{msg}') (verdicts {m}), the code: {out[:3]} "
+                                   "(rejections are outside the property's quantifier: no failing input)")
+    res.count(f"fos-guards/agree/{path}")
+
+
 # ------------------------------------------------------------------------------------------------
 
 
@@ -1485,6 +1917,12 @@ def run(ctx, model_ok=True):
     for dims, k in [[[3, 2, 2], 2], [[2, 2, 3], 2], [[2, 3, 2], 1]] + ([] if quick else [[[3, 2, 2], 2], [[2, 3, 3], 1], [[2, 2, 3], 2]]):
         fos.append({"vecs": [qgen.unit(qgen.int_vector(rng, dd, True, lim=3)) for dd in dims], "dims": dims, "k": k})   # unequal local dimensions
     run_pool(ctx, work_fos, seeded(fos))
+    # the program the channel fidelity_of_separability builds (captured, never solved) at exact points, and its guards
+    combos = [([2, 2, 2], 1), ([2, 2, 2], 2), ([2, 2, 3], 1), ([2, 2, 3], 2), ([2, 3, 2], 1), ([2, 3, 2], 2), ([3, 2, 2], 1), ([3, 2, 2], 2)]
+    if not quick:
+        combos = combos * 3 + [([2, 2, 2], 3), ([3, 3, 2], 1), ([2, 3, 3], 1)]
+    run_pool(ctx, work_fos_program, seeded([gen_fos_program_task(rng, i, dims, k) for i, (dims, k) in enumerate(combos)]))
+    run_pool(ctx, work_fos_guards, seeded([gen_fos_guard_task(rng, i) for i in range(22 if quick else 110)]))
     # code paths + captured-program embedding (no program is solved by toqito in these streams)
     run_pool(ctx, work_paths, seeded([gen_path_task(rng, i) for i in range(36 if quick else 360)]))
     run_pool(ctx, work_embed_cf, seeded([gen_embed_cf_task(rng, i) for i in range(16 if quick else 120)]))
@@ -1521,6 +1959,10 @@ def replay(ctx, rec):
     elif a.get("fn") == "embedding-cf":
         work_embed_cf({"d": d, "id": a.get("id", 0), "J1": _arr(a["J1"]), "J2": _arr(a["J2"]), "zeta": complex(a["zeta"]["re"], a["zeta"]["im"]) if isinstance(a["zeta"], dict) else complex(a["zeta"]),
                        "seed": a["seed"], "eps": a.get("eps"), "pres": a.get("pres")}, res)
+    elif a.get("fn") == "fos-program":
+        work_fos_program({"dims": a["dims"], "k": a["k"], "vecs": a["vecs"], "other": a.get("other"), "seed": a["seed"], "form": a.get("form", 0), "id": a.get("id", 0), "pres": a.get("pres")}, res)
+    elif a.get("fn") == "fos-guards":
+        work_fos_guards({"kind": a["kind"], "dims": a["dims"], "vecs": a["vecs"], "vecs2": a["vecs2"], "id": a.get("id", 0), "pres": a.get("pres")}, res)
     elif a.get("fn") == "cf-path":
         work_cf_path({"s1": tuple(a["s1"]), "s2": tuple(a["s2"]), "seed": a["seed"]}, res)
     elif fn == "channel_fidelity" and "J1" in a:
